@@ -829,6 +829,34 @@ func (c *EvalCtx) call(e *Expr) EV {
 				nc.cur = c.st
 			}
 			return nc.Eval(args[0])
+		case "snap":
+			// snap(e, *T, field): field of the object behind interface/pointer e as recorded when it first became an interface value
+			a := c.Eval(args[0])
+			var id *Term
+			switch v := a.V.(type) {
+			case *IfaceV:
+				id = v.Id
+			case *PtrV:
+				id = tb.Ite(v.IsNil, tb.Intc(0), tb.Intc(int64(v.Obj.ID)))
+			default:
+				specFail("snap of %T", a.V)
+			}
+			if args[1].Op != "typ" || args[2].Op != "ident" {
+				specFail("snap(e, *T, field)")
+			}
+			pt, ok := c.resolveType(args[1].Type).(*types.Pointer)
+			if !ok {
+				specFail("snap: pointer type expected")
+			}
+			path, ft, found := fieldByName(pt.Elem(), args[2].Name)
+			if !found {
+				specFail("snap: no field %s in %s", args[2].Name, pt.Elem())
+			}
+			srt, isScalar := scalarSort(ft)
+			if !isScalar {
+				specFail("snap: field %s is not a scalar", args[2].Name)
+			}
+			return EV{V: tb.App(x.snapFun(pt.Elem(), pathKey(path), srt), id), T: ft}
 		case "outer":
 			if c.lookupOuter == nil || args[0].Op != "ident" {
 				specFail("outer(name) is only available in loop invariants")
